@@ -4,5 +4,6 @@ CONSTANTS
   DevAvg = FALSE
   DevArr = TRUE
   DevStale = FALSE
+  DevEmpty = FALSE
 INVARIANTS LengthInv StepOKModKnown
 CHECK_DEADLOCK FALSE
